@@ -9,7 +9,8 @@ import (
 
 // Case16L is a hostile input of the class "very long run of continuation bytes": hex(Head), then Run bytes of the
 // value B (0x80..0xff: every one of them says "the number goes on"), then hex(Tail) - nothing (the number never
-// ends), a final group, or a final group and a body. A 64 MiB input is a few bytes of JSON.
+// ends), a final group, or a final group and a body. A 64 MiB input is a few bytes of JSON. The same form serves the
+// runs whose length crosses a word-size boundary of a shift counter (2^w/7 bytes, w = 7 .. 32: 18 bytes .. 585 MiB).
 type Case16L struct {
 	Head string `json:"head,omitempty"`
 	Run  int    `json:"run"`
@@ -26,13 +27,42 @@ type Info16L struct {
 	Run int
 }
 
-// NonTrivial: always (the prefix has at least 2^20 groups).
-func (i Info16L) NonTrivial() bool { return i.Run >= 1<<20 }
+// NonTrivial: the prefix has at least 2^20 groups, or the run ends within 3 bytes of a word-size boundary of a shift
+// counter.
+func (i Info16L) NonTrivial() bool { return i.Run >= 1<<20 || ShiftWord(i.Run) != 0 }
+
+// ShiftWords are the widths of the integer types a decoder may count its shift in. The shift grows by 7 per
+// continuation byte, so a counter of w bits (signed: w-1) is exhausted after 2^w/7 bytes of a number that goes on.
+var ShiftWords = []int{7, 8, 15, 16, 31, 32}
+
+// ShiftWord tells whether a run of n continuation bytes ends within 3 bytes of 2^w/7 for one of the ShiftWords (0: no).
+func ShiftWord(n int) int {
+	for _, w := range ShiftWords {
+		if d := n - (1<<w)/7; d >= -3 && d <= 3 {
+			return w
+		}
+	}
+	return 0
+}
 
 // Classes for the histogram.
 func (i Info16L) Classes() []string {
-	c := append(i.Info16.Classes(), "long_continuation_run")
+	c := i.Info16.Classes()
+	if w := ShiftWord(i.Run); w != 0 {
+		c = append(c, "continuation_run_ends_at_shift_counter_boundary", fmt.Sprintf("continuation_run_of_2^%d/7_bytes", w))
+		if i.Terminated {
+			c = append(c, "continuation_run_at_shift_counter_boundary_terminated")
+		} else {
+			c = append(c, "continuation_run_at_shift_counter_boundary_unterminated")
+		}
+	}
+	if i.Run < 1<<20 {
+		return c
+	}
+	c = append(c, "long_continuation_run")
 	switch {
+	case i.Run >= 256<<20:
+		c = append(c, "long_continuation_run_ge_256MiB")
 	case i.Run >= 32<<20:
 		c = append(c, "long_continuation_run_ge_32MiB")
 	case i.Run >= 8<<20:
@@ -44,6 +74,9 @@ func (i Info16L) Classes() []string {
 }
 
 var longArena []byte
+
+// hugeRun: from this run length on a case is decoded in one presentation only (cap > len).
+const hugeRun = 1 << 27
 
 // ReserveLong makes sure the arena of the long-run cases holds n bytes (allocate once, for the largest case of the run).
 func ReserveLong(n int) {
@@ -86,6 +119,9 @@ func Run16L(c Case16L) (info Info16L, v *vstat.Violation) {
 	copy(in[len(head)+c.Run:], tail)
 	info = Info16L{Info16: Classify(in), Run: c.Run}
 	for fi, form := range []string{"cap==len", "cap>len"} {
+		if fi == 0 && c.Run >= hugeRun {
+			continue // every call walks hundreds of MB: one presentation
+		}
 		x := in[:n:n]
 		if fi == 1 {
 			x = in
